@@ -9,7 +9,9 @@ Nothing in here imports kfac.
 
 from __future__ import annotations
 
+import collections.abc
 import hashlib
+import os
 import pickle
 import threading
 from typing import Any, Callable
@@ -262,6 +264,9 @@ class SimCfg:
         self.max_actions = kw.get('max_actions', 200000)
         self.initialized = kw.get('initialized', True)
         self.nonmember_raises = kw.get('nonmember_raises', True)
+        # launcher environment seam: ranks per node of a torchrun-style
+        # launch (None: the launcher variables are not set at all)
+        self.local_size = kw.get('local_size', None)
 
     def to_json(self) -> dict[str, Any]:
         return dict(self.__dict__)
@@ -874,10 +879,54 @@ _PATCHED = [
 ]
 
 
+class _EnvProxy(collections.abc.MutableMapping):
+    """os.environ as each simulated rank sees it: the launcher variables
+    (RANK, LOCAL_RANK, WORLD_SIZE, ...) are per process in a real job but a
+    single-process simulation has one environment, so they are answered per
+    rank thread here; every other key goes to the real environment."""
+
+    def __init__(self, real: Any) -> None:
+        self._real = real
+
+    def _launcher(self) -> dict[str, str]:
+        sim = _ACTIVE
+        r = getattr(_tl, 'rank', None)
+        if sim is None or r is None or sim.cfg.local_size is None:
+            return {}
+        ls = sim.cfg.local_size
+        return {'RANK': str(r), 'WORLD_SIZE': str(sim.world),
+                'LOCAL_RANK': str(r % ls), 'LOCAL_WORLD_SIZE': str(ls),
+                'GROUP_RANK': str(r // ls)}
+
+    def __getitem__(self, k: str) -> str:
+        la = self._launcher()
+        if k in la:
+            _ACTIVE.probe('launcher_env_read')  # type: ignore
+            return la[k]
+        return self._real[k]
+
+    def __setitem__(self, k: str, v: str) -> None:
+        self._real[k] = v
+
+    def __delitem__(self, k: str) -> None:
+        del self._real[k]
+
+    def __iter__(self) -> Any:
+        return iter({**self._real, **self._launcher()})
+
+    def __len__(self) -> int:
+        return len({**self._real, **self._launcher()})
+
+    def copy(self) -> dict[str, str]:
+        return {**self._real, **self._launcher()}
+
+
 class patched:
     """Install SimDist and SimFuture over torch for the duration."""
 
     def __enter__(self) -> 'patched':
+        self.saved_environ = os.environ
+        os.environ = _EnvProxy(os.environ)  # type: ignore
         self.saved = {n: getattr(dist, n) for n in _PATCHED}
         for n in _PATCHED:
             setattr(dist, n, getattr(SimDist, n))
@@ -889,3 +938,4 @@ class patched:
         for n, v in self.saved.items():
             setattr(dist, n, v)
         torch.futures.Future = self.saved_future  # type: ignore
+        os.environ = self.saved_environ
